@@ -1073,6 +1073,14 @@ class Interp(BuiltinsMixin, StmtMixin, DictMixin):
             name = node.func.id
             if name in ("forall", "exists"):
                 return self.spec_quant(name, node, st, fr)
+            if name == "ite" and len(node.args) == 3 and \
+                    "ite" not in fr.env:
+                c = z3.simplify(self.truth(self.ev(node.args[0], st, fr),
+                                           st))
+                if z3.is_true(c):
+                    return self.ev(node.args[1], st, fr)
+                if z3.is_false(c):
+                    return self.ev(node.args[2], st, fr)
             if name == "implies" and len(node.args) == 2 and \
                     "implies" not in fr.env:
                 # the consequent is not evaluated under a hypothesis that is
